@@ -247,6 +247,40 @@ def check(ctx):
                 return False
         return True
 
+    def caller_contexts(f, depth=0):
+        """The condition lists under which the callers reach their calls of f, with the argument names renamed to f's parameters;
+        [] when f has no caller, a caller is not summarised, or an argument is not a plain name."""
+        cs = callers.get(f, set()) - {f}
+        if not cs:
+            return []
+        params = [p_ for p_ in flow.param_names(f) if p_ != 'self']
+        out = []
+        for g in cs:
+            gps = sem.paths(g, resolver=resolver)
+            if gps is None:
+                return []
+            for c_ in [n_ for n_ in walk_no_nested(g) if isinstance(n_, ast.Call) and sem.callee_name(n_) == f.name]:
+                ren = {}
+                for i_, a_ in enumerate(c_.args):
+                    if i_ < len(params) and isinstance(a_, ast.Name):
+                        ren[a_.id] = params[i_]
+                for k_ in c_.keywords:
+                    if k_.arg and isinstance(k_.value, ast.Name):
+                        ren[k_.value.id] = k_.arg
+                reach_ = sem.reaching(gps, Model.enclosing_stmt(c_))
+                if not reach_:
+                    return []
+                for _p, conds_ in reach_:
+                    lits_ = []
+                    for c2 in conds_:
+                        t_ = c2[0]
+                        for a_, b_ in ren.items():
+                            if a_ != b_:
+                                t_ = re.sub(r'\b%s\b' % re.escape(a_), b_, t_)
+                        lits_.append((t_, c2[1]))
+                    out.append(lits_)
+        return out[:64]
+
     def second_run_argument(f, node, root, desc):
         """-> (verdict, why): verdict True (idempotent) / False / None (undecided)"""
         # operates on a deep copy
@@ -273,8 +307,10 @@ def check(ctx):
             written = node.value
         verdict_all = True
         why = ''
-        for p, conds in reach:
-            lits = [(c[0], c[1]) for c in conds]
+        contexts = None
+        todo_ = [(p, [(c[0], c[1]) for c in conds], False) for p, conds in reach]
+        while todo_:
+            p, lits, in_ctx = todo_.pop(0)
             if any('sys.version_info' in t and not pol for t, pol in lits):
                 continue        # the Python 2 arm of a version test
             store = None
@@ -288,6 +324,8 @@ def check(ctx):
                 if ev[0] == 'call' and ev[2] is node:
                     call_txt = ev[1]
             ok_ = False
+            if store:
+                store = re.sub(r"\.setdefault\(('[^']*'), (\{\}|\[\])\)\[", r'[\1][', store)      # d.setdefault('k', {})['x'] = v writes d['k']['x']
             # (1) set only when the key is absent
             if store and ' = ' in store and not store.startswith('del '):
                 tgt = store.split(' = ', 1)[0]
@@ -328,6 +366,13 @@ def check(ctx):
                         helpers_src = ' '.join(ast.unparse(h_) for h_ in hs_)
                         if any(need in t for t, pol in lits) or need in helpers_src or (store_val is not None and need in ast.unparse(store_val)):
                             ok_, why = True, reason
+            if not ok_ and not in_ctx:
+                # an extracted helper: the conditions its callers establish before the call belong to the path
+                if contexts is None:
+                    contexts = caller_contexts(f)
+                if contexts:
+                    todo_ = [(p, lits + cx_, True) for cx_ in contexts] + todo_
+                    continue
             if not ok_:
                 verdict_all = False
                 why = 'no condition established before it makes a second run the identity (conditions: %s)' % ('; '.join(('' if pol else 'not ') + t for t, pol in lits)[:200] or 'none')
